@@ -96,8 +96,10 @@ def _run(ix, R):
                 fl.tab.equal(lev.value, want), key=fmt(fl, lev.value), detail=fmt(fl, lev.value), loc=f.loc(lev.node))
         lay = st['self.pressure_profile']
         want = spec(fl, 'L[:-1]*sqrt(L[1:]/L[:-1])', {'L': code(fl, 'self.pressure_profile_levels')})
+        # (the levels may be read back from the attribute or taken from the value just stored in it)
+        want_b = spec(fl, 'L[:-1]*sqrt(L[1:]/L[:-1])', {'L': lev.value})
         R.check('1.layers', 'ALG', site, 'layer pressure = geometric mean of its two levels: L[:-1]*sqrt(L[1:]/L[:-1])',
-                fl.tab.equal(lay.value, want) and fl.events.index(lev) < fl.events.index(lay),
+                (fl.tab.equal(lay.value, want) or fl.tab.equal(lay.value, want_b)) and fl.events.index(lev) < fl.events.index(lay),
                 key=fmt(fl, lay.value), detail=fmt(fl, lay.value), loc=f.loc(lay.node))
     # array / file pressure profiles: the levels are rebuilt around the very layer pressures the model reads
     AP = 'taurex/data/profiles/pressure/arraypressure.py'
@@ -328,14 +330,17 @@ def _run(ix, R):
                 'inactive_mix_profile': 'model.chemistry.inactiveGasMixProfile', 'density_profile': 'model.densityProfile',
                 'scaleheight_profile': 'model.scaleheight_profile', 'altitude_profile': 'model.altitudeProfile',
                 'gravity_profile': 'model.gravity_profile', 'pressure_profile': 'model.pressureProfile'}
+        from sa.helpers import dict_facts
+        fl = mkflow(ix, site)
+        pe = param_env(fl, f, ['model'])
+        facts = dict_facts(fl)
         got = {}
-        mp = f.params()[0]
-        for n in walk_no_nested(f.node):
-            if isinstance(n, ast.Assign) and isinstance(n.targets[0], ast.Subscript) and \
-                    isinstance(n.targets[0].slice, ast.Constant):
-                # attribute path relative to the model parameter, whatever it is called
-                v = unparse(n.value)
-                got[n.targets[0].slice.value] = ('model' + v[len(mp):]) if v.startswith(mp + '.') else v
+        for k, v in want.items():
+            vals = facts.get(k, [])
+            if len(vals) == 1 and fl.tab.equal(vals[0][0], spec(fl, v, pe)) and not vals[0][1].guards:
+                got[k] = v
+            else:
+                got[k] = [fmt(fl, x[0]) for x in vals] or None
         bad = {k: got.get(k) for k, v in want.items() if got.get(k) != v}
         R.check('4.dict', 'TAB', site, 'each exported per-layer quantity is read from the model attribute of that name',
                 not bad, key=str(bad), detail='mismatched entries %s' % bad, loc=f.loc())
